@@ -106,7 +106,16 @@ def project_redismgr(st, sites):
             "watching": st["watching"], "lastPings": st["lastPings"]}
 
 
-PROJECTORS = {"redismgr": project_redismgr, "managed": None, "unmanaged": project_unmanaged, "sync": project_sync, "syncmgr": project_syncmgr}
+def harness_cfg_pgmgr(c):
+    return {"max_size": c.get("MaxSize", 1), "method": c.get("Method", "fast")}
+
+
+def project_pgmgr(st, sites):
+    return {"idle": st["idle"], "size": st["size"], "held": sorted(st["held"]), "taken": sorted(st["taken"]),
+            "nq": st["nq"], "parses": st["parses"], "cache": [sorted(k) for k in st["cache"]]}
+
+
+PROJECTORS = {"pgmgr": project_pgmgr, "redismgr": project_redismgr, "managed": None, "unmanaged": project_unmanaged, "sync": project_sync, "syncmgr": project_syncmgr}
 
 
 def site_map(spec_path):
@@ -305,6 +314,8 @@ def write_paths(out_path, hcfg, nodes, edges, paths, sites, meta, kind="managed"
             i = len(labels)
             lbl_ix[lbl] = i
             n, t, x = parse_label(lbl)
+            if kind not in ("managed", "unmanaged") and t != "":
+                x, t = [t] + x, ""          # these specifications have no task argument
             labels.append({"a": n, "t": t, "x": x})
         return i
 
